@@ -22,9 +22,9 @@ BUND["Diff"] = {"sigs": [("p", 1, "sig"), ("n", 1, "sig")], "subs": [], "builtin
 VALS = {
     "inst": {
         "a": {"s1": sig("s1"), "s2": sig("s2"), "v0": idx(sig("v"), 0), "c1": cat(sig("s2")), "rj": pref("j", "a"), "rk": pref("k", "a"),
-              "rks": idx(pref("k", "a"), 0), "nc1": nc("n1"), "ncn": nc("n2", "named_nc")},
+              "rks": idx(pref("k", "a"), 0), "nc1": nc("n1"), "ncn": nc("n2", "named_nc"), "bx": bref("b1", "x")},
         "b": {"v": sig("v"), "u": sig("u"), "c2": cat(sig("s1"), sig("s2")), "t13": rng(sig("w"), 1, 3), "rj": pref("j", "b"), "rk": pref("k", "b"),
-              "nc1": nc("n1"), "nc3": nc("n3")},
+              "nc1": nc("n1"), "nc3": nc("n3"), "by": bref("b1", "y")},
         "t": {"b1": b("b1"), "b1x": b("b1x"), "br": bref("b2", "sub"), "an": anon(x=sig("s1"), y=sig("v")), "di": dct(x=sig("s2"), y=sig("u")),
               "anr": anon(x=pref("k", "a"), y=bref("b1", "y")), "rj": pref("j", "t"), "rk": pref("k", "t"), "nc4": nc("n4")},
     },
@@ -58,6 +58,7 @@ def base_design(kind):
     for n, w in [("s1", 1), ("s2", 1), ("v", 2), ("u", 2), ("w", 4), ("ja", 1), ("jb", 2), ("da", 1), ("db", 2)]:
         decls.append(("sig", n, w))
         decls.append(probe("p_" + n, n, w, 5))
+    decls += [("inst", "q_b1_x", ("ext", "P1", {"k": 8}), [("a", bref("b1", "x"))]), ("inst", "q_b1_y", ("ext", "P2", {"k": 9}), [("a", bref("b1", "y"))])]
     decls += [("binst", "b1", "B1"), ("binst", "b1x", "B1"), ("binst", "b2", "B2"), ("binst", "jt", "B1"), ("binst", "dt", "B1"),
               ("binst", "d0", "Diff"), ("binst", "d1", "Diff")]
     for bn in ("d0", "d1"):
@@ -226,6 +227,128 @@ def _one(item):
     return None
 
 
+# ------------------------------------------------------------------------------------------------
+# second exploration: references *to* the subject's port, taken at different moments of the history
+# ------------------------------------------------------------------------------------------------
+REF_OPS = [("set", "s1"), ("set", "bx"), ("set", "rh"), ("disconnect", None), ("badreplace", "s1"), ("badreplace", "rh"),
+           ("refby", "h0"), ("refby", "h2"), ("hset", "h0")]
+REF_VALS = {"s1": sig("s1"), "bx": bref("b1", "x"), "rh": pref("h1", "a")}
+
+
+def ref_histories(depth):
+    out = []
+    level = [[]]
+    for d in range(depth):
+        nxt = []
+        for hist in level:
+            conn = None
+            for op in hist:
+                if op[0] == "set":
+                    conn = op[1]
+                elif op[0] == "disconnect":
+                    conn = None
+            for op in REF_OPS:
+                if op[0] == "disconnect" and conn is None:
+                    continue
+                if op[0] == "badreplace" and conn is not None:
+                    continue
+                nxt.append(hist + [op])
+        out += nxt
+        level = nxt
+    return out
+
+
+def ref_design(final):
+    """Design of the final mapping of a refs-history: final = dict(i=value|None, h0='ref'|'s2'|None, h2='ref'|None)."""
+    exts = dict([probe_ext(1), probe_ext(2)])
+    child = {"name": "Child1", "style": "class", "decls": [("port", "a", 1, "none"), ("inst", "pa", ("ext", "P1", {"k": 1}), [("a", sig("a"))])]}
+    decls = []
+    for n in ("s1", "s2", "h1a", "da", "dh0", "dh2"):
+        decls.append(("sig", n, 1))
+        decls.append(probe("p_" + n, n, 1, 5))
+    decls += [("binst", "b1", "B1"), ("inst", "q_b1_x", ("ext", "P1", {"k": 8}), [("a", bref("b1", "x"))]), ("inst", "q_b1_y", ("ext", "P2", {"k": 9}), [("a", bref("b1", "y"))])]
+    decls.append(("inst", "h1", ("mod", "Child1"), [("a", sig("h1a"))]))
+    referenced = final.get("h0") == "ref" or final.get("h2") == "ref"
+    iconn = [("a", REF_VALS[final["i"]])] if final.get("i") else ([] if referenced else [("a", sig("da"))])
+    decls.append(("inst", "i", ("mod", "Child1"), iconn))
+    h0 = [("a", pref("i", "a"))] if final.get("h0") == "ref" else [("a", sig("s2"))] if final.get("h0") == "s2" else [("a", sig("dh0"))]
+    h2 = [("a", pref("i", "a"))] if final.get("h2") == "ref" else [("a", sig("dh2"))]
+    decls.append(("inst", "h0", ("mod", "Child1"), h0))
+    decls.append(("inst", "h2", ("mod", "Child1"), h2))
+    top = {"name": "Top", "style": "proc", "decls": decls}
+    return {"bundles": BUND, "exts": exts, "modules": {"Child1": child, "Top": top}, "top": "Top"}
+
+
+def _ref_one(hist):
+    import hdl21 as h
+    from ..build import build, mk_expr
+
+    start = ref_design(dict(i=None, h0=None, h2=None))
+    # start from a module in which i, h0, h2 are all unconnected
+    for d in start["modules"]["Top"]["decls"]:
+        pass
+    top = start["modules"]["Top"]
+    top["decls"] = [(d[0], d[1], d[2], []) if d[0] == "inst" and d[1] in ("i", "h0", "h2") else d for d in top["decls"]]
+    try:
+        built = build(start)
+    except Exception as e:
+        return dict(kind="harness", detail=short_exc(e))
+    ns = {k[1]: v for k, v in built.objs.items() if k[0] == "Top"}
+    ncs = {}
+    objs = {k: mk_expr(v, ns, ncs, start, built) for k, v in REF_VALS.items() if k != "rh"}
+    final = dict(i=None, h0=None, h2=None)
+    i = ns["i"]
+    try:
+        for op in hist:
+            if op[0] == "set":
+                v = objs[op[1]] if op[1] != "rh" else ns["h1"].a
+                i.a = v
+                final["i"] = op[1]
+            elif op[0] == "disconnect":
+                i.disconnect("a")
+                final["i"] = None
+            elif op[0] == "badreplace":
+                v = objs[op[1]] if op[1] != "rh" else ns["h1"].a
+                try:
+                    i.replace("a", v)
+                    return dict(kind="op", detail="replace() of an unconnected port did not raise")
+                except KeyError:
+                    pass
+            elif op[0] == "refby":
+                ns[op[1]].a = i.a
+                final[op[1]] = "ref"
+            elif op[0] == "hset":
+                ns["h0"].a = ns["s2"]
+                final["h0"] = "s2"
+            if set(i.conns) != ({"a"} if final["i"] else set()):
+                return dict(kind="conns", detail=f"after {op}: conns has {sorted(i.conns)}")
+    except Exception as e:
+        return dict(kind="op_raised", detail=short_exc(e))
+    fdesign = ref_design(final)
+    try:
+        rdev, rpart = refsem.R(fdesign)
+    except refsem.Invalid:
+        return "invalid_final"
+    try:
+        # canonical completion on the real objects
+        referenced = final["h0"] == "ref" or final["h2"] == "ref"
+        if not final["i"] and not referenced:
+            i.a = ns["da"]
+        if final["h0"] is None:
+            ns["h0"].a = ns["dh0"]
+        if final["h2"] is None:
+            ns["h2"].a = ns["dh2"]
+        pkg = h.to_proto(built.top)
+        odev, opart = observe.O_pkg(pkg, fdesign)
+    except Exception as e:
+        return dict(kind="rejected_valid", detail=short_exc(e))
+    if observe.devices_agree(rdev, odev):
+        return dict(kind="devices", detail=observe.devices_agree(rdev, odev))
+    if opart != rpart:
+        return dict(kind="partition", detail=observe.partition_diff(rpart, opart))
+    return None
+
+
 def features(kind, hist):
     """Narrow signature of a violating history: what was replaced by what."""
     prev = {}
@@ -266,11 +389,31 @@ def run(ctx):
         if items:
             ctx.sample(dict(subject=kind, history=items[len(items) // 2][1]))
             ctx.sample(dict(subject=kind, history=items[-1][1]))
+    # references to the subject's own port, taken before / after re-connections, dead references, failed operations
+    rh = ref_histories(4 if ctx.quick else 5)
+    res = ctx.pmap(_ref_one, rh, chunk=100)
+    for hh, r in zip(rh, res):
+        ctx.count(states=1, transitions=len(hh) + 2, traces_validated_against_impl=1)
+        ctx.fam("refs", histories=1)
+        if r == "invalid_final":
+            ctx.fam("refs", final_mapping_invalid=1)
+            continue
+        if r is None:
+            ctx.outcome("agree:refs:" + str(len(hh)))
+            continue
+        ctx.outcome(r["kind"] + ":refs")
+        ctx.violation(dict(subject="refs", kind=r["kind"], replaced=",".join(sorted({o[0] for o in hh}))), dict(subject="refs", history=[list(o) for o in hh]), r)
+    ctx.extra.setdefault("depth", {})["refs"] = 4 if ctx.quick else 5
+    ctx.sample(dict(subject="refs", history=[list(o) for o in rh[len(rh) // 2]]))
     ctx.assume("only histories whose completed final mapping the reference semantics calls valid are judged at the export level")
 
 
 def replay(body):
     c = body["case"]
+    if c["subject"] == "refs":
+        r = _ref_one([tuple(x) for x in c["history"]])
+        print("replay:", r)
+        return 0 if (r is None or isinstance(r, str)) else 1
     r = _one((c["subject"], [tuple(x) for x in c["history"]]))
     print("replay:", r)
     return 0 if (r is None or isinstance(r, str)) else 1
